@@ -381,7 +381,12 @@ def render_fixed(prog, rng, opts=None):
         first = len(laid.lines) + 1
         for j, ch in enumerate(chunks):
             if j == 0:
-                laid.lines.append((lab.ljust(5) if lab else "     ") + " " + ch)
+                if rng.random() < 0.08 and len(chunks) == 1:
+                    # TAB-indented initial line (TAB, or label then TAB): the tab reaches past column 6
+                    laid.lines.append((lab if lab else "") + "\t" + ch.lstrip())
+                    laid.hit("tab-indented")
+                else:
+                    laid.lines.append((lab.ljust(5) if lab else "     ") + " " + ch)
             else:
                 if rng.random() < opts.p_between and opts.comments:
                     c = comment_line()
